@@ -1366,6 +1366,12 @@ func (vm *VirtualMachine) initContext(ctx context.Context) context.Context {
 	if vm.concAllowed {
 		ctx = object.WithSpawnFunc(ctx, vm.cloneCallAsync)
 		ctx = object.WithCloneCallFunc(ctx, vm.cloneCallSync)
+	} else {
+		// The context may come from a builtin of another VM, which has put
+		// its own functions there: without concurrency this VM offers none,
+		// and hides the ones it was handed
+		ctx = object.WithSpawnFunc(ctx, nil)
+		ctx = object.WithCloneCallFunc(ctx, nil)
 	}
 	return ctx
 }
